@@ -1,7 +1,7 @@
 (* GErrProofs.v — CloneBase composes lawfully along any chain (lemmas behind Props/C15.v). *)
 From Coq Require Import NArith List Bool Lia PeanoNat.
 From GT Require Import Base.GErrStr.
-From GT Require Import GErrModel GErrSpec.
+From GT Require Import GErrModel GErrSpec GErrMetric GErrMetricProofs.
 Import ListNotations.
 
 (* ---------------------------------------------------------------- strings *)
@@ -464,3 +464,14 @@ Proof. destruct m; reflexivity. Qed.
 
 Lemma base_wiring_nostack m : w_stack (base_wiring m) = NoStack <-> m = MBase.
 Proof. destruct m; simpl; split; congruence. Qed.
+
+(* when every step's derived source is the rendering of some frame name, the hypothesis of the
+   source law on the oracle strings holds *)
+Lemma derived_ok_of_metric wt ch :
+  (forall s, In s ch -> exists f, a_derived (snd s) = metric f) ->
+  forallb derived_ok (map (eff_of wt) ch) = true.
+Proof.
+  intros H. apply forallb_forall. intros e He. apply in_map_iff in He as [s [<- Hs]].
+  destruct (H s Hs) as [f Hf]. unfold derived_ok, eff_of. simpl.
+  destruct (w_stack (wt (fst s))); try reflexivity; rewrite Hf; apply metric_nonempty.
+Qed.
